@@ -228,6 +228,9 @@ func drawBigHashFile(t *rapid.T) *bigHash {
 	bh := &bigHash{}
 	// "three" files exceed 32 MiB, the size of the read buffer the tool puts in front of a file or socket
 	mode := rapid.SampledFrom([]string{"exact", "exact+1", "exact-1", "last-pair", "two", "three", "three", "random"}).Draw(t, "mode")
+	if forcedBigMode != "" {
+		mode = forcedBigMode // stratified tests pin the layout (set outside the property, so replay is unaffected)
+	}
 	// sizes of pair payloads (field+value incl. their length headers)
 	var sizes []int
 	unit := rapid.SampledFrom([]int{1 << 20, 1 << 19, 3 << 18, 1 << 21}).Draw(t, "unit")
@@ -428,6 +431,16 @@ func firstDiff(a, b []byte) int {
 }
 
 func TestC01Big(t *testing.T) { rapid.Check(t, c01BigCase) }
+
+// forcedBigMode pins the layout drawBigHashFile produces ("" = drawn).
+var forcedBigMode string
+
+// TestC01BigThree: only hashes of three chunks (> 32 MiB: the second cut and the read-buffer boundary are only reached there).
+func TestC01BigThree(t *testing.T) {
+	forcedBigMode = "three"
+	defer func() { forcedBigMode = "" }()
+	rapid.Check(t, c01BigCase)
+}
 
 // c01BigOther: values beyond 16 MiB that are NOT hashes (string, list of large elements, LZF string) are one record each.
 func c01BigOther(t *rapid.T) {
